@@ -44,6 +44,9 @@ type verifFaultCtl struct {
 	n      int // eligible calls seen since Arm
 	fired  bool
 	trace  []byte
+	// afterCommit: the countdown starts only after the first Commit since Arm
+	afterCommit bool
+	commits     int
 }
 
 // Arm starts recording; the failAt-th eligible call (0-based) fails with the given kind.
@@ -51,7 +54,16 @@ func (c *verifFaultCtl) Arm(failAt, kind int) {
 	c.mu.Lock()
 	defer c.mu.Unlock()
 	c.armed, c.failAt, c.kind, c.n, c.fired = true, failAt, kind, 0, false
+	c.afterCommit, c.commits = false, 0
 	c.trace = c.trace[:0]
+}
+
+// ArmAfterCommit fails the j-th eligible call that follows the first successful Commit.
+func (c *verifFaultCtl) ArmAfterCommit(j int) {
+	c.Arm(j, verifFaultHard)
+	c.mu.Lock()
+	c.afterCommit = true
+	c.mu.Unlock()
 }
 
 // Disarm stops recording and returns the trace, the number of eligible calls and whether the fault fired.
@@ -80,6 +92,13 @@ func (c *verifFaultCtl) hit(ev byte) error {
 	c.mu.Lock()
 	defer c.mu.Unlock()
 	if !c.armed {
+		return nil
+	}
+	if c.afterCommit && c.commits == 0 {
+		if ev == 'C' {
+			c.commits++
+		}
+		c.trace = append(c.trace, ev)
 		return nil
 	}
 	idx := c.n
